@@ -106,6 +106,13 @@ class UpdateStatus:
     def post_invariant(self):
         return I11_nonempty(self)
 
+    def post_set_object(self, new_state, old):
+        """the set of running identifiers is the same object unless a running-like report replaces it by a new one
+        (needed by callers that hold several ProcessStatus: no set is ever shared between two of them)"""
+        return ite(new_state in R, was_fresh(self.running_identifiers)
+                   or self.running_identifiers is old.self.running_identifiers,
+                   self.running_identifiers is old.self.running_identifiers)
+
     def post_conflict_flag(self):
         return self.conflicting() == exists(str, str, lambda i, j: i != j and i in self.running_identifiers
                                             and j in self.running_identifiers)
@@ -222,6 +229,11 @@ class UpdateInfo:
         """statement: 'a state forced by Supvisors overrides the display until the next event received'"""
         return self.forced_state is None
 
+    def post_set_object(self, payload, old):
+        return ite(payload['state'] in R, was_fresh(self.running_identifiers)
+                   or self.running_identifiers is old.self.running_identifiers,
+                   self.running_identifiers is old.self.running_identifiers)
+
     def post_most_recent_stopped_state_shown(self, identifier, payload):
         """statement: 'when it runs nowhere ... the stopped-like state most recently received' (strictly most recent)"""
         return implies(forall(str, lambda i: i not in self.running_identifiers)
@@ -248,6 +260,9 @@ class InvalidateIdentifier:
 
     def post_not_listed(self, identifier):
         return identifier not in self.running_identifiers
+
+    def post_set_object(self, old):
+        return self.running_identifiers is old.self.running_identifiers
 
     def post_fatal_if_was_listed(self, identifier, old):
         return implies(identifier in old.self.running_identifiers,
